@@ -36,27 +36,36 @@ impl Manager {
         let mut cfg = Cfg::new_with_predefined_call_names(nodes, &Some(interrupt_call_names))?;
         NodeDirectionPass::run(&mut cfg)?;
         EliminateDeadCodeDirectionsPass::run(&mut cfg)?;
-        AvailableValuePass::run(&mut cfg)?;
-        EcallTerminationPass::run(&mut cfg)?;
+        // The functions are marked on the graph in which the edges behind
+        // all exit ecalls have been cut (a function does not run on past an
+        // exit into the next one); the values are then computed once more,
+        // because marking a function changes what is known at its entry.
+        Self::settle_exits(&mut cfg)?;
         FunctionMarkupPass::run(&mut cfg)?;
-
-        // Exit ecalls are recognised from the values, and cutting the edges
-        // behind an exit changes the values (another ecall may only then turn
-        // out to be an exit): repeat until no edge is cut any more, so that
-        // the values that are kept belong to the edges that are kept.
-        loop {
-            AvailableValuePass::run(&mut cfg)?;
-            let edges = |cfg: &Cfg| cfg.iter().map(|node| node.nexts().len()).sum::<usize>();
-            let before = edges(&cfg);
-            EcallTerminationPass::run(&mut cfg)?;
-            if edges(&cfg) == before {
-                break;
-            }
-        }
+        Self::settle_exits(&mut cfg)?;
         // EliminateDeadCodeDirectionsPass::run(&mut cfg)?; // to eliminate ecall terminated code
         LivenessPass::run(&mut cfg)?;
         Ok(cfg)
     }
+    /// Run the value analysis and cut the edges behind exit ecalls until no
+    /// edge is cut any more.
+    ///
+    /// Exit ecalls are recognised from the values, and cutting the edges behind
+    /// an exit changes the values (another ecall may only then turn out to be
+    /// an exit): at the end the values that are kept belong to the edges that
+    /// are kept.
+    fn settle_exits(cfg: &mut Cfg) -> Result<(), Box<CfgError>> {
+        loop {
+            AvailableValuePass::run(cfg)?;
+            let edges = |cfg: &Cfg| cfg.iter().map(|node| node.nexts().len()).sum::<usize>();
+            let before = edges(cfg);
+            EcallTerminationPass::run(cfg)?;
+            if edges(cfg) == before {
+                return Ok(());
+            }
+        }
+    }
+
     pub fn run_diagnostics(cfg: &Cfg, errors: &mut DiagnosticManager) {
         SaveToZeroCheck::run(cfg, errors);
         DeadValueCheck::run(cfg, errors);
